@@ -409,7 +409,13 @@ def opt_as_deref(ex, m, a, fr, dest):
     o = deref(a[0])
     if o.variant == 0:
         return none()
-    return some(deref_target(o.fields[0]))
+    v = deref(o.fields[0])
+    if isinstance(v, Agg) and last_seg(v.ty) not in ('Box', 'Arc', 'Rc'):
+        # a crate type with its own Deref impl (e.g. Apath -> str): run it
+        cands = ex.prog.fn_index.get((type_tag(v), 'Deref', 'deref'))
+        if cands:
+            return some(ex.call_fn(cands[0][0], [Ref([v], 0)]))
+    return some(deref_target(v))
 
 
 def deref_target(v):
@@ -2749,3 +2755,20 @@ def char_is_control(ex, m, a, fr, dest):
     c = deref(a[0])
     # Unicode general category Cc: U+0000..U+001F and U+007F..U+009F
     return b_or(b_and(b_not(b_lt(c, 0)), b_lt(c, 0x20)), b_and(b_not(b_lt(c, 0x7f)), b_lt(c, 0xa0)))
+
+
+@model(r'<(?:std::option::)?Option<.*> as PartialOrd>::(partial_cmp|lt|le|gt|ge)')
+def option_partial_cmp(ex, m, a, fr, dest):
+    x, y = deref(a[0]), deref(a[1])
+    if x.variant != y.variant:
+        v = -1 if x.variant == 0 else 1          # None < Some(_)
+    elif x.variant == 0:
+        v = 0
+    else:
+        v = generic_cmp(ex, x.fields[0], y.fields[0], fr)
+        if is_sym(v):
+            v = ex.concretize(v, -1, 1, 'Option cmp')
+    op = m.group(1)
+    if op == 'partial_cmp':
+        return some(ordering(v))
+    return {'lt': v < 0, 'le': v <= 0, 'gt': v > 0, 'ge': v >= 0}[op]
